@@ -115,6 +115,16 @@ DirCases == UNION {
         rk \in RefKinds, r \in RefBoxes, sz \in Sizes(k),
         d \in {"h", "H", "v", "V"}, g \in {-8, 0, 12}} : k \in SubjKinds}
 
+\* a <point> as reference: a degenerate box; it is also a legitimate "previous element"
+PointRefCases ==
+    {[fam |-> "rel", form |-> "dir", refkind |-> "point", ref |-> B(p[1], p[2], p[1], p[2]), kind |-> "rect", w |-> 8, h |-> 4,
+      dir |-> d, gap |-> g, exp |-> PlaceDir(B(p[1], p[2], p[1], p[2]), d, g, 8, 4)] :
+        p \in {<<8, 12>>, <<-20, 4>>}, d \in {"h", "H", "v", "V"}, g \in {0, 8}}
+    \cup
+    {[fam |-> "rel", form |-> "loc", refkind |-> "point", ref |-> B(p[1], p[2], p[1], p[2]), kind |-> k, w |-> 8, h |-> 8,
+      loc |-> "c", anchor |-> a, dx |-> 0, dy |-> 0, exp |-> PlaceAt(p, a, 8, 8)] :
+        p \in {<<8, 12>>, <<-20, 4>>}, k \in {"rect", "circle"}, a \in {"tl", "c", "br"}}
+
 LocCases ==
     {[fam |-> "rel", form |-> "loc", refkind |-> rk, ref |-> r, kind |-> k, w |-> sz[1], h |-> sz[2],
       loc |-> l, anchor |-> a, dx |-> d[1], dy |-> d[2],
@@ -127,7 +137,7 @@ EdgeCases ==
       edge |-> e, okind |-> o[1], off |-> o[2], anchor |-> a,
       exp |-> PlaceAt(EdgeLoc(r, e, o[1], o[2]), a, 8, 4)] :
         rk \in {"rect", "circle", "line"}, r \in RefBoxes, e \in {"t", "r", "b", "l"},
-        o \in {<<"abs", 4>>, <<"abs", -4>>, <<"pct", 25>>, <<"pct", 150>>, <<"pct", 0>>, <<"pct", 100>>},
+        o \in {<<"abs", 4>>, <<"abs", -4>>, <<"abs", 0>>, <<"pct", 25>>, <<"pct", 150>>, <<"pct", 0>>, <<"pct", 100>>},
         a \in {"tl", "c"}}
 
 \* per-axis scalar references: x="#r~x2" etc.; the other axis is absolute
@@ -154,7 +164,7 @@ ChainCases ==
       exp |-> PlaceDir(PlaceDir(r, d1, g, 8, 4), d2, g, 4, 12)] :
         r \in RefBoxes, d1 \in {"h", "H", "v", "V"}, d2 \in {"h", "H", "v", "V"}, g \in {0, 4}}
 
-RelCases == DirCases \cup LocCases \cup EdgeCases \cup ScalarCases \cup SizeCases \cup ChainCases
+RelCases == DirCases \cup LocCases \cup EdgeCases \cup ScalarCases \cup SizeCases \cup ChainCases \cup PointRefCases
 
 \* identities of the layout reference, checked on every case
 RelIdentities ==
@@ -163,6 +173,8 @@ RelIdentities ==
               EdgeLoc(c.ref, c.edge, "pct", 0) = Loc(c.ref, IF c.edge \in {"t", "l"} THEN "tl" ELSE IF c.edge = "b" THEN "bl" ELSE "tr")
         /\ c.form = "edge" /\ c.okind = "pct" /\ c.off = 100 =>
               EdgeLoc(c.ref, c.edge, "pct", 100) = Loc(c.ref, IF c.edge \in {"b", "r"} THEN "br" ELSE IF c.edge = "t" THEN "tr" ELSE "bl")
+        \* an absolute offset of 0 is the start of the edge, like 0%
+        /\ c.form = "edge" /\ c.okind = "abs" /\ c.off = 0 => EdgeLoc(c.ref, c.edge, "abs", 0) = EdgeLoc(c.ref, c.edge, "pct", 0)
         /\ c.form = "loc" => Loc(PlaceAt(Loc(c.ref, c.loc), c.anchor, c.w, c.h), c.anchor) = Loc(c.ref, c.loc)
         /\ c.form = "dir" /\ c.dir \in {"h", "H"} => Cy(c.exp) = Cy(c.ref) /\ H(c.exp) = c.h /\ W(c.exp) = c.w
         /\ c.form = "dir" /\ c.dir \in {"v", "V"} => Cx(c.exp) = Cx(c.ref)
@@ -201,6 +213,7 @@ EnclosesSq(cx, cy, rx2, ry2, b) ==
 Margins ==
     IF Tier = "quick"
     THEN {<<>>, <<<<"abs", 4>>>>, <<<<"abs", 4>>, <<"abs", 8>>>>, <<<<"pct", 25>>>>, <<<<"abs", -4>>>>,
+          <<<<"abs", 4>>, <<"abs", 8>>, <<"abs", 12>>>>,
           <<<<"abs", 4>>, <<"abs", 0>>, <<"abs", 8>>, <<"abs", 12>>>>}
     ELSE {<<>>, <<<<"abs", 4>>>>, <<<<"abs", 4>>, <<"abs", 8>>>>, <<<<"pct", 25>>>>, <<<<"abs", -4>>>>,
           <<<<"abs", 4>>, <<"abs", 8>>, <<"abs", 12>>>>, <<<<"abs", 4>>, <<"abs", 0>>, <<"abs", 8>>, <<"abs", 12>>>>,
@@ -226,7 +239,14 @@ InsideCases ==
       exp |-> b] :    \* exp: the enclosing shape's bounding box; result must lie within the shape
         b \in {B(0, 0, 32, 32), B(-16, 8, 16, 24)}, rk \in {"circle", "ellipse"}, m \in {<<>>, <<<<"abs", 4>>>>}}
 
-ContainCases == SurroundCases \cup InsideCases
+\* lists without a common area: the statement fixes no geometry, but the
+\* containment attributes must still not reach the output
+DisjointCases ==
+    {[fam |-> "contain", mode |-> "inside-disjoint", refs |-> rl, refkinds |-> "rect", kind |-> k, margin |-> m, exp |-> B(0, 0, 0, 0)] :
+        rl \in {<<B(0, 0, 8, 8), B(20, 20, 28, 28)>>, <<B(0, 0, 16, 16), B(8, 8, 24, 24), B(40, 0, 48, 8)>>},
+        k \in {"rect", "circle", "ellipse"}, m \in {<<>>, <<<<"abs", 4>>>>}}
+
+ContainCases == SurroundCases \cup InsideCases \cup DisjointCases
 
 ContainIdentities ==
     c.fam = "contain" =>
@@ -319,14 +339,18 @@ CeilQ(n) == -FloorQ(-n)
 RootBox(e, border) == B(FloorQ(e.x1 - 4 * border), FloorQ(e.y1 - 4 * border), CeilQ(e.x2 + 4 * border), CeilQ(e.y2 + 4 * border))
 
 \* items: [kind, box, counts]  - counts: whether the item contributes to E
-ItemKinds == {"rect", "circle", "line", "box", "text", "point", "defs", "shapetext", "gtrans", "gscale", "specs", "symbol"}
+ItemKinds == {"rect", "circle", "line", "box", "text", "point", "defs", "shapetext", "gtrans", "gscale", "specs", "symbol",
+              "usex", "usey", "usexy"}     \* <use> of a shape kept in <defs>, offset by x and / or y
 ItemBoxes == {B(2, 6, 18, 14), B(-22, -9, -6, 7), B(40, 1, 47, 30)}
-Counts(k) == k \in {"rect", "circle", "line", "box", "text", "gtrans", "gscale", "shapetext"}
+Counts(k) == k \in {"rect", "circle", "line", "box", "text", "gtrans", "gscale", "shapetext", "usex", "usey", "usexy"}
 \* the geometry an item contributes, given its base box
 Contribution(k, b) ==
     CASE k = "text" -> B(b.x1, b.y1, b.x1, b.y1)                       \* standalone text: its anchor point
       [] k = "gtrans" -> Shift(b, 12, -8)                               \* <g transform="translate(3 -2)">
       [] k = "gscale" -> B(2 * b.x1, 2 * b.y1, 2 * b.x2, 2 * b.y2)       \* <g transform="scale(2)">
+      [] k = "usex" -> Shift(b, 80, 0)                                   \* <use href x="20">
+      [] k = "usey" -> Shift(b, 0, -40)                                  \* <use href y="-10">
+      [] k = "usexy" -> Shift(b, 80, -40)
       [] k = "circle" -> B(b.x1, b.y1, b.x1 + H(b), b.y2)               \* circle of diameter H at the box's left
       [] OTHER -> b                                                      \* shapetext: the shape only, not its text
 ItemLists ==
